@@ -56,10 +56,36 @@ example : safe [.rlock, .spawn, .loop [.ifs [.ret]], .runlock, .ret] = false := 
 example : exec 2 50 [.rlock, .spawn, .loop [.ifs [.ret]], .runlock, .ret] ⟨0, .none, false⟩ [true]
     = some (.returned ⟨1, .running 1, false⟩, []) := by decide
 
+/-- **"…or stall processing", the push side** (obligation over regenerated facts): `PushMetrics`
+    sets a deadline on the connection it dialled before it hands it to anything that writes — the
+    writes happen with a metric's read lock held, and a peer that accepted and then stopped reading
+    would otherwise hold that lock for ever.  (That a write on a connection with a deadline returns
+    by the deadline is the runtime's, §11.6.) -/
+theorem push_writes_have_a_deadline :
+    deadlineBeforeWrites false Generated.ExportLocks.pushConnCalls = true ∧
+      Generated.ExportLocks.pushConnCalls = ["DialTimeout", "SetDeadline", "writeSocketMetrics", "Close"] := by
+  decide
+
+/-- what that says, for any list of calls: every writing call has a deadline-setting call before it -/
+theorem push_every_write_is_bounded (pre : List String) (w : String) (post : List String)
+    (hcs : Generated.ExportLocks.pushConnCalls = pre ++ w :: post)
+    (hw : connQuiet w = false) (hwb : connBounds w = false) : ∃ d ∈ pre, connBounds d = true := by
+  rcases deadlineBeforeWrites_sound _ false push_writes_have_a_deadline.1 pre w post hcs hw hwb with h | h
+  · cases h
+  · exact h
+
+/-- not vacuous: dialling with a context deadline and writing (the context governs the dial only) is refused -/
+example : deadlineBeforeWrites false ["DialContext", "writeSocketMetrics", "Close"] = false := by decide
+
 /-! ### regenerated control skeletons (written by lib/wire_skeletons.py) -/
 /-- Obligations over regenerated facts: the functions this property's model stands for have the
     control skeleton the model was written against (`Proofs/Skeletons.lean`, one `rfl` per function
     or clause; DESIGN.md §11.6a) -/
 theorem export_skeletons : Skeletons.ExportShape := Skeletons.export_shape
+theorem f_exporter_prometheus_skeletons : Skeletons.F_exporter_prometheusShape := Skeletons.f_exporter_prometheus_shape
+theorem f_metrics_metric_skeletons : Skeletons.F_metrics_metricShape := Skeletons.f_metrics_metric_shape
+theorem f_exporter_export_skeletons : Skeletons.F_exporter_exportShape := Skeletons.f_exporter_export_shape
+theorem f_exporter_graphite_skeletons : Skeletons.F_exporter_graphiteShape := Skeletons.f_exporter_graphite_shape
+theorem f_exporter_varz_skeletons : Skeletons.F_exporter_varzShape := Skeletons.f_exporter_varz_shape
 
 end MtailVerif.C12
